@@ -277,6 +277,14 @@ def run_check(mod, prop, tier, seed, args):
 
     confirmed = 0
     replay_paths = []
+    rdir = os.environ.get("VERIF_REPLAY_DIR") or os.path.join(VERIF, "replays", prop)
+    if os.path.isdir(rdir):
+        for fn in os.listdir(rdir):
+            if fn.endswith(".json"):
+                try:
+                    os.unlink(os.path.join(rdir, fn))
+                except OSError:
+                    pass
     for pname, v in new_violations:
         path = write_replay(prop, pname, v, tier, seed)
         replay_paths.append((pname, v, path))
